@@ -492,6 +492,44 @@ func (h *VerifHarness) JobsCatchSignal() []string {
 	return out
 }
 
+// VerifStraggler is a job monitor that outlives its mrp: it was running when
+// mrp died and records the termination signal only later.
+type VerifStraggler struct {
+	Key         string
+	ErrorsPath  string
+	JournalFile string
+}
+
+// RunningJobs lists the monitors that are alive right now (started, not
+// finished), as stragglers-to-be.
+func (h *VerifHarness) RunningJobs() []VerifStraggler {
+	var out []VerifStraggler
+	for _, j := range h.Jobs {
+		if (j.Step != 1 && j.Step != 2) || j.job == nil {
+			continue
+		}
+		md := j.job
+		if _, err := os.Stat(md.MetadataFilePath(CompleteFile)); err == nil {
+			continue
+		}
+		out = append(out, VerifStraggler{Key: j.Key(), ErrorsPath: md.MetadataFilePath(Errors),
+			JournalFile: md.journalPath + "." + md.journalPrefix + string(Errors)})
+	}
+	return out
+}
+
+// Write performs the straggler's late record (the directory may have been
+// removed by a reset in the meantime: then the write simply fails, as it
+// would for the real process).
+func (s VerifStraggler) Write() {
+	if _, err := os.Stat(path.Dir(s.ErrorsPath)); err != nil {
+		return
+	}
+	os.WriteFile(s.ErrorsPath, []byte("Caught signal terminated"), 0o644)
+	os.MkdirAll(path.Dir(s.JournalFile), 0o755)
+	os.WriteFile(s.JournalFile, []byte(util.Timestamp()), 0o644)
+}
+
 // Pending returns the jobs which have not finished, in submission order.
 func (h *VerifHarness) Pending() []*VerifJob {
 	var out []*VerifJob
